@@ -140,6 +140,9 @@ def predict(ctx, eqs, rng, N):
     W = rand_W(rng, N)
     om = O.random_axes(rng, N) * O.loguniform(rng, 1e-3, 50, N)[:, None]
     om[: N // 20] = 0.0
+    # slow rotation: a gyro reading that almost cancels the bias estimate (corrected rate 1e-7 .. 2e-3 rad/s) still rotates the attitude
+    ks = N // 10
+    om[N // 20: N // 20 + ks] = x[N // 20: N // 20 + ks, 3:] + O.random_axes(rng, ks) * O.loguniform(rng, 1e-7, 2e-3, ks)[:, None]
     dt = rng.uniform(1e-3, 20e-3, N)
     t = rng.uniform(0, 100, N)
     sg, sn = O.loguniform(rng, 1e-4, 1e-2, N), O.loguniform(rng, 1e-6, 1e-4, N)
